@@ -130,3 +130,43 @@ macro_rules! unique_h {
 }
 unique_h!(c15_check_unique_n2_id_u, N2, I, U);
 unique_h!(c15_check_unique_id_n1_n2, I, N1, N2);
+
+// Two *different* names with the same id (possible from 5 bytes on, when the fold wraps):
+// equality, ordering and hashing must still go through the id. "lraubw" and "qdyhta" both
+// hash to 313518415. The second name keeps `$fixed` leading bytes of "qdyhta" and the rest
+// symbolic, so the solver has to find the colliding spelling itself.
+macro_rules! collision_h {
+    ($name:ident, $fixed:expr, $unw:expr) => {
+        harness! {
+            #[kani::unwind($unw)]
+            fn $name() {
+                let a = Label::Named(String::from("lraubw"));
+                let known = *b"qdyhta";
+                let c: [u8; 6] = kani::any();
+                let mut i = 0;
+                while i < 6 {
+                    kani::assume(c[i] >= b'a' && c[i] <= b'z');
+                    if i < $fixed { kani::assume(c[i] == known[i]); }
+                    i += 1;
+                }
+                let b = Label::Named(String::from_utf8(vec![c[0], c[1], c[2], c[3], c[4], c[5]]).unwrap());
+                let (ia, ib) = (a.get_id(), b.get_id());
+                assert!(ia == 313518415, "hash of a known name changed");
+                assert!((a == b) == (ia == ib), "Label equality is not equality of numeric ids (names that collide)");
+                assert!(a.cmp(&b) == ia.cmp(&ib), "Label ordering is not the ordering of numeric ids");
+                if ia == ib {
+                    assert!(hash_of(&a) == hash_of(&b), "equal labels hash differently");
+                    // a sorted sequence containing both must be rejected as a collision
+                    let ls = [a.clone(), b.clone()];
+                    assert!(candid::utils::check_unique(ls.iter()).is_err(), "two names with the same id were not reported as a collision");
+                    std::mem::forget(ls);
+                }
+                kani::cover!(ia == ib && c[5] != b'w', "a different name with the same id found");
+                std::mem::forget(a);
+                std::mem::forget(b);
+            }
+        }
+    };
+}
+collision_h!(c15_label_collision_suffix2, 4, 9);
+collision_h!(c15_label_collision_suffix4, 2, 9);
